@@ -742,9 +742,9 @@ fn analyze_builtin(
 				})
 			}
 		}
-		Builtin::Format => Ok(()),
-		Builtin::Print => Ok(()),
-		Builtin::Eprint => Ok(()),
+		Builtin::Format => reject_void_arguments(name, arguments),
+		Builtin::Print => reject_void_arguments(name, arguments),
+		Builtin::Eprint => reject_void_arguments(name, arguments),
 		Builtin::File => Ok(()),
 		Builtin::Line => Ok(()),
 		Builtin::Dbg =>
@@ -761,7 +761,32 @@ fn analyze_builtin(
 				})
 			}
 		}
-		Builtin::Panic => Ok(()),
+		Builtin::Panic => reject_void_arguments(name, arguments),
 		Builtin::IncludeBytes => todo!(),
 	}
+}
+
+/// A call to a function without a return value has nothing to format.
+fn reject_void_arguments(
+	name: &Identifier,
+	arguments: &[Expression],
+) -> Result<(), Error>
+{
+	for argument in arguments
+	{
+		match argument.value_type()
+		{
+			Some(Ok(value_type)) if value_type.is_void() =>
+			{
+				return Err(Error::InvalidOperandType {
+					value_type,
+					possible_types: Vec::new(),
+					location_of_op: name.location.clone(),
+					location_of_operand: argument.location().clone(),
+				});
+			}
+			_ => (),
+		}
+	}
+	Ok(())
 }
